@@ -39,15 +39,17 @@ func TestMain(m *testing.M) {
 // ---------------------------------------------------------------- configuration
 
 type Config struct {
-	P      int    `json:"producers"`
-	W      int    `json:"writes"`
-	Size   int    `json:"size"`
-	Poller bool   `json:"poller"`
-	Writer string `json:"writer"` // returns | yields | blocks
-	Big    bool   `json:"big,omitempty"` // one message larger than 64 KiB
-	Early  bool   `json:"early_close,omitempty"` // Close right after the last Write returned, without waiting for quiescence
-	NilAlert bool `json:"nil_alerter,omitempty"` // NewWriter(w, size, poll, nil)
-	BigCap bool   `json:"big_cap,omitempty"`     // producers write from a reused buffer of capacity 128 KiB
+	P         int    `json:"producers"`
+	W         int    `json:"writes"`
+	Size      int    `json:"size"`
+	Poller    bool   `json:"poller"`
+	Writer    string `json:"writer"`                      // returns | yields | blocks
+	Big       bool   `json:"big,omitempty"`               // one message larger than 64 KiB
+	Early     bool   `json:"early_close,omitempty"`       // Close right after the last Write returned, without waiting for quiescence
+	NilAlert  bool   `json:"nil_alerter,omitempty"`       // NewWriter(w, size, poll, nil)
+	BigCap    bool   `json:"big_cap,omitempty"`           // producers write from a reused buffer of capacity 128 KiB
+	TwoClose  bool   `json:"two_closers,omitempty"`       // a second thread calls Close concurrently (deferred Close + Fatal's Close)
+	Reentrant bool   `json:"reentrant_alerter,omitempty"` // the alerter logs through the same diode.Writer (it runs on the consumer)
 }
 
 func (c Config) String() string {
@@ -64,16 +66,22 @@ func (c Config) String() string {
 	if c.BigCap {
 		m += " bigcap"
 	}
+	if c.Reentrant {
+		m += " reentrant-alerter"
+	}
+	if c.TwoClose {
+		m += " two-closers"
+	}
 	return fmt.Sprintf("P%d W%d size%d %s writer=%s", c.P, c.W, c.Size, m, c.Writer)
 }
 
 type Case struct {
-	Cfg      Config `json:"config"`
-	Kind     string `json:"schedule_kind"` // bytes | pct | dfs
-	Bytes    []byte `json:"bytes,omitempty"`
-	Seed     uint64 `json:"seed,omitempty"`
-	D        int    `json:"d,omitempty"`
-	Choices  []int  `json:"dfs_choices,omitempty"` // replay of a DFS schedule: option index per decision point
+	Cfg     Config `json:"config"`
+	Kind    string `json:"schedule_kind"` // bytes | pct | dfs
+	Bytes   []byte `json:"bytes,omitempty"`
+	Seed    uint64 `json:"seed,omitempty"`
+	D       int    `json:"d,omitempty"`
+	Choices []int  `json:"dfs_choices,omitempty"` // replay of a DFS schedule: option index per decision point
 }
 
 // ---------------------------------------------------------------- one run
@@ -84,25 +92,27 @@ type delivery struct {
 }
 
 type result struct {
-	written       int
-	delivered     []string
-	reported      int
-	alerts        []int
-	claimed       int
-	retries       int
-	overlap       bool
-	mutated       bool
-	unknown       string
-	dupe          string
-	producersDone int
-	quiescentSeen bool
-	qDelivered    int
-	qReported     int
-	closeReturned bool
-	afterClose    int
-	sched         *vsched.Sched
-	effPos        map[string]uint64
-	lapped        bool
+	written                            int
+	delivered                          []string
+	reported                           int
+	alerts                             []int
+	claimed                            int
+	retries                            int
+	overlap                            bool
+	mutated                            bool
+	unknown                            string
+	dupe                               string
+	producersDone                      int
+	quiescentSeen                      bool
+	qDelivered                         int
+	qReported                          int
+	closeReturned                      bool
+	close2Started, close2Returned      bool
+	c2Delivered, c2Reported, c2Written int
+	afterClose                         int
+	sched                              *vsched.Sched
+	effPos                             map[string]uint64
+	lapped                             bool
 }
 
 type wrapped struct {
@@ -185,16 +195,28 @@ func runOnce(cfg Config, ch vsched.Chooser, keepTrace bool) *result {
 		if cfg.Poller {
 			poll = time.Millisecond
 		}
+		var dw diode.Writer
+		nalert := 0
 		var alerter diode.Alerter = func(missed int) {
 			vsched.Progress()
 			r.alerts = append(r.alerts, missed)
 			r.reported += missed
 			vsched.Record("alert", 0, uint64(missed), true)
+			if cfg.Reentrant && nalert < 3 {
+				// "Dropped N messages" logged through the very writer that is alerting
+				nalert++
+				m := fmt.Sprintf("alert-%d|dropped", nalert)
+				sent[m] = true
+				vsched.Record("awrite-start", uint64(nalert), 0, true)
+				dw.Write([]byte(m))
+				vsched.Record("awrite-end", uint64(nalert), 0, true)
+				r.written++
+			}
 		}
 		if cfg.NilAlert {
 			alerter = nil
 		}
-		dw := diode.NewWriter(ww, cfg.Size, poll, alerter)
+		dw = diode.NewWriter(ww, cfg.Size, poll, alerter)
 		done := 0
 		for p := 0; p < cfg.P; p++ {
 			p := p
@@ -231,10 +253,22 @@ func runOnce(cfg Config, ch vsched.Chooser, keepTrace bool) *result {
 			r.qDelivered, r.qReported = len(r.delivered), r.reported
 			vsched.Record("quiescent", uint64(r.qDelivered), uint64(r.qReported), true)
 		}
+		if cfg.TwoClose {
+			r.close2Started = true
+			vsched.GoNamed("closer2", func() {
+				dw.Close()
+				r.c2Delivered, r.c2Reported, r.c2Written = len(r.delivered), r.reported, r.written
+				r.close2Returned = true
+				vsched.Record("close2-returned", uint64(r.c2Delivered), uint64(r.c2Reported), true)
+			})
+		}
 		dw.Close()
 		closed = true
 		r.closeReturned = true
 		vsched.Record("close-returned", 0, 0, true)
+		if cfg.TwoClose {
+			vsched.Block("join-closer2", func() bool { return r.close2Returned })
+		}
 	})
 	// effective claim position of each message = last AddUint64 result inside its Write
 	cur := map[int]string{}
@@ -243,7 +277,9 @@ func runOnce(cfg Config, ch vsched.Chooser, keepTrace bool) *result {
 		switch e.Op {
 		case "write-start":
 			cur[e.T] = string(message(int(e.A), int(e.R), cfg))
-		case "write-end":
+		case "awrite-start":
+			cur[e.T] = fmt.Sprintf("alert-%d|dropped", e.A)
+		case "write-end", "awrite-end":
 			delete(cur, e.T)
 		case "AddUint64":
 			if m, ok := cur[e.T]; ok {
@@ -274,9 +310,9 @@ type verdict struct {
 
 // traceFacts derives what the known-finding signatures need from the history.
 type traceFacts struct {
-	abandoned      map[uint64]bool // claimed positions whose Set gave up (CAS failed or newer-bucket test) without filling them
-	emptyBroadcast bool            // a Set's Broadcast found no waiter after the consumer's last empty TryNext and before its Wait
-	consumerWaits  bool            // consumer is parked in Cond.Wait at the end
+	abandoned        map[uint64]bool // claimed positions whose Set gave up (CAS failed or newer-bucket test) without filling them
+	emptyBroadcast   bool            // a Set's Broadcast found no waiter after the consumer's last empty TryNext and before its Wait
+	consumerWaits    bool            // consumer is parked in Cond.Wait at the end
 	lastDeliveredPos int64
 }
 
@@ -301,7 +337,7 @@ func facts(r *result, cfg Config) traceFacts {
 			if e.OK {
 				has[e.T] = false
 			}
-		case "write-end":
+		case "write-end", "awrite-end":
 			if has[e.T] {
 				f.abandoned[pending[e.T]] = true
 				has[e.T] = false
@@ -398,6 +434,8 @@ func judge(cfg Config, r *result) verdict {
 			return v
 		case r.afterClose > 0:
 			v.msg = fmt.Sprintf("%d deliveries after Close returned", r.afterClose)
+		case r.close2Returned && r.c2Delivered+r.c2Reported < r.c2Written:
+			v.msg = fmt.Sprintf("a second, concurrent Close returned with delivered %d + reported %d < written %d: messages still in the ring", r.c2Delivered, r.c2Reported, r.c2Written)
 		case len(r.delivered)+r.reported < r.written:
 			v.msg = fmt.Sprintf("after Close: delivered %d + reported %d < written %d (silent loss)", len(r.delivered), r.reported, r.written)
 		case r.retries == 0 && len(r.delivered)+r.reported != r.written:
@@ -554,6 +592,8 @@ func genConfig(rt *rapid.T, small bool) Config {
 	c.Early = (prop == "C11" || prop == "C12") && rapid.Bool().Draw(rt, "early")
 	c.NilAlert = rapid.IntRange(0, 7).Draw(rt, "nilalert") == 0
 	c.BigCap = prop == "C10" && rapid.IntRange(0, 5).Draw(rt, "bigcap") == 0
+	c.TwoClose = (prop == "C11" || prop == "C12") && rapid.IntRange(0, 3).Draw(rt, "twoclose") == 0
+	c.Reentrant = !c.NilAlert && rapid.IntRange(0, 4).Draw(rt, "reentrant") == 0
 	return c
 }
 
@@ -611,8 +651,15 @@ func dfsConfigs() []struct {
 		add(2, 1, 1, 2)
 		add(1, 3, 2, 2)
 	}
-	out = append(out, cb{Config{P: 1, W: 3, Size: 1, Writer: "returns", NilAlert: true}, 2}, cb{Config{P: 1, W: 3, Size: 1, Poller: true, Writer: "returns", NilAlert: true}, 2},
-		cb{Config{P: 2, W: 1, Size: 1, Writer: "returns", BigCap: true}, 2})
+	out = append(out, cb{Config{P: 1, W: 3, Size: 1, Writer: "returns", NilAlert: true}, 2}, cb{Config{P: 1, W: 3, Size: 1, Poller: true, Writer: "returns", NilAlert: true}, 2})
+	if prop == "C10" {
+		out = append(out, cb{Config{P: 2, W: 1, Size: 1, Writer: "returns", BigCap: true}, 2})
+	}
+	if prop == "C11" || prop == "C12" {
+		out = append(out, cb{Config{P: 1, W: 2, Size: 2, Writer: "returns", Early: true, TwoClose: true}, 2}, cb{Config{P: 1, W: 2, Size: 2, Poller: true, Writer: "returns", Early: true, TwoClose: true}, 2})
+	}
+	// lapping with an alerter that writes to its own diode (waiter and poller)
+	out = append(out, cb{Config{P: 1, W: 3, Size: 1, Writer: "returns", Reentrant: true}, 2}, cb{Config{P: 1, W: 3, Size: 1, Poller: true, Writer: "returns", Reentrant: true}, 2})
 	if prop == "C11" || prop == "C12" {
 		n := len(out)
 		for i := 0; i < n; i++ {
